@@ -155,5 +155,6 @@ Supported(m, s, a) ==
   /\ (m = "repeat" => Len(a) = 1 /\ (s = <<>> \/ ToIntClamp(a[1]) <= 6 \/ IsPosInfArg(a[1])))
   /\ (m = "split" /\ Len(a) >= 2 => SplitLimitSupported(a[2]))
   /\ (m = "[]" => Len(a) = 1 /\ a[1].k = "num" /\ (WIsSmallInt(a[1].w) \/ WIsNaN(a[1].w) \/ WIsInf(a[1].w)) /\ a[1].w # WNegZero)
-  /\ (m \in {"startsWith", "endsWith", "includes"} => TRUE)
+  \* documented restriction: ASCII-only case mapping; receivers with non-ASCII units are not judged
+  /\ (m \in {"toLowerCase", "toUpperCase"} => \A i \in 1..Len(s) : IsAsciiUnit(s[i]))
 =============================================================================
